@@ -330,6 +330,13 @@ class World:
                 if se.model.st != "CL":
                     se.model.recv_commit(lights, raised=not ev["ok"])
                 ev["state_sync"] = se.model.state_ok(ev["st_after"])
+            elif self.init.get("follow") and verdict == "ok" and se.model.st != "CL" and ev["st_after"] != "CLOSED":
+                # "follow" mode (C10, C08): the implementation mishandled a delivery that the documented protocol accepts
+                # (wrong number of messages, a foreign exception) but is still open.  The model keeps tracking what the PEER
+                # actually sent - that is what "currently outstanding" means - and the run goes on.
+                se.model.recv_commit(lights, raised=False)
+                ev["followed"] = True
+                ev["state_sync"] = True
             else:
                 ev["state_sync"] = True
         else:
